@@ -29,7 +29,7 @@ func init() {
 	engine.Register(&engine.Check{
 		ID:         "C09",
 		Technique:  "explicit-state search over socket-set histories (open orders, closes, interface toggles) on the real stack with exhaustive injection of the inbound 4-tuple alphabet after every operation, against a most-specific-match reference; stateless model checking (cooperative scheduler, all schedules) of registration/unregistration racing delivery",
-		Rule:       "sockets from {UDP bound *:P, A1:P, A2:P, A3:P(NIC2), A1:P connected to R:Q, *:P connected to R:Q; the same connected through NIC 1 explicitly, A1:P bound on NIC 1, *:P bound on NIC 2; TCP listener *:P, A1:P}: all sets of size <=3 in all open orders, then each single close; toggles promiscuous / subnet; every connected socket connecting again to the peer it already has; after each operation inject dst {A1,A2,A3,foreign,unassigned} x dport {P,P'} x src {R,R'} x sport {Q,Q'} x {UDP, TCP SYN, TCP ACK+data} on each NIC; distinct = distinct (history, packet)",
+		Rule:       "sockets from {UDP bound *:P, A1:P, A2:P, A3:P(NIC2), A1:P connected to R:Q, *:P connected to R:Q; the same connected through NIC 1 explicitly, A1:P bound on NIC 1, *:P bound on NIC 2; TCP listener *:P, A1:P}: all sets of size <=3 in all open orders, then each single close; toggles promiscuous / subnet / removal of the second local address; every connected socket connecting again to the peer it already has; after each operation inject dst {A1,A2,A3,foreign,unassigned} x dport {P,P'} x src {R,R'} x sport {Q,Q'} x {UDP, TCP SYN, TCP ACK+data} on each NIC; distinct = distinct (history, packet)",
 		Assumes:    []string{"sockets are registered with the global demultiplexer (NIC 0) except accepted TCP connections"},
 		Jobs:       c09Jobs,
 		Run:        c09Run,
@@ -85,14 +85,15 @@ type c09Sock struct {
 }
 
 type c09World struct {
-	r       *Raw
-	socks   []*c09Sock
-	promis  bool
-	subnet  bool
-	tcpConn tcpip.Endpoint // established A1:P <-> R:Q (through a listener)
-	connIss uint32
-	counter int
-	oneNIC  bool
+	r         *Raw
+	socks     []*c09Sock
+	promis    bool
+	subnet    bool
+	tcpConn   tcpip.Endpoint // established A1:P <-> R:Q (through a listener)
+	connIss   uint32
+	counter   int
+	oneNIC    bool
+	removedA2 bool
 }
 
 func c09NewWorld() *c09World { return c09NewWorldN(2) }
@@ -200,7 +201,7 @@ func c09Packets() []c09Pkt {
 // expect computes the reference receiver: index into c.socks, or -1 for nobody; processed=false
 // if the packet must not be processed at all (no response of any kind).
 func (c *c09World) expect(p c09Pkt) (idx int, processed bool) {
-	assigned := (p.NIC == 1 && (p.Dst == c09A1 || p.Dst == c09A2)) || (p.NIC == 2 && p.Dst == c09A3)
+	assigned := (p.NIC == 1 && (p.Dst == c09A1 || (p.Dst == c09A2 && !c.removedA2))) || (p.NIC == 2 && p.Dst == c09A3)
 	if !assigned {
 		if p.NIC == 1 && (c.promis || (c.subnet && p.Dst == c09Foreign)) {
 			// promiscuous NIC / subnet owner processes it as if the address were local
@@ -394,6 +395,12 @@ func c09History(order []int, toggle string, closeIdx int, pkts []c09Pkt) (*c09Fa
 			return nil, probes, false // incompatible set
 		}
 		hist += c09Menu[m].Name + " "
+		if toggle == "remove-A2" {
+			// no probes before the removal: a handshake in progress keeps a route, and a route
+			// keeps its local address alive until it is released (the repository's documented
+			// "delayed removal"), which is not what this history is about
+			continue
+		}
 		if f := sweep(); f != nil {
 			return f, probes, true
 		}
@@ -415,6 +422,20 @@ func c09History(order []int, toggle string, closeIdx int, pkts []c09Pkt) (*c09Fa
 			if f := sweep(); f != nil {
 				return f, probes, true
 			}
+		}
+		toggle = ""
+	}
+	if toggle == "remove-A2" {
+		// the second address is taken off the interface (sockets bound to it specifically stay
+		// open): from now on nothing addressed to it may be processed
+		if err := c.r.n.S.RemoveAddress(1, c09A2); err != nil {
+			return &c09Fail{"harness", "RemoveAddress: " + err.String()}, probes, true
+		}
+		c.r.w.Settle()
+		c.removedA2 = true
+		hist += "remove-address(A2) "
+		if f := sweep(); f != nil {
+			return f, probes, true
 		}
 		toggle = ""
 	}
@@ -686,6 +707,10 @@ func c09Run(job, tier string, deadline time.Time) *engine.Result {
 				close  int
 			}{"subnet", -1})
 		}
+		variants = append(variants, struct {
+			toggle string
+			close  int
+		}{"remove-A2", -1})
 		for _, m := range ord {
 			if c09Menu[m].Conn {
 				variants = append(variants, struct {
